@@ -238,7 +238,10 @@ def _plan(w, op):
         if init == "float":
             init_v = uval(op["seed"], key + "init", 0, lo, hi)
         elif init == "zero":
-            init_v = 0.0  # a switched-off conductance / a state of exactly zero is a value like any other
+            # a switched-off conductance / a state of exactly zero is a value like any other; geometry, capacitance and
+            # axial resistivity must stay positive (the properties quantify over positive parameter settings)
+            positive_only = key in ("radius", "length", "axial_resistivity", "capacitance") or key.endswith(("taumax", "k_minus", "slope"))
+            init_v = uval(op["seed"], key + "init", 0, lo, hi) if positive_only else 0.0
         elif init in ("list", "badlist"):
             # number of groups known only after grouping: compute from a dry run on a clone
             dry = ref.clone()
